@@ -834,7 +834,7 @@ def run(tier: str = 'quick', seed: int = 0, jobs: int = 16) -> dict:
                                  json.dumps(f['case'])))
     # <= 50 failures, the shortest examples of every signature first
     picked, per = [], Counter()
-    for rank in range(3):
+    for rank in range(8):
         for f in failures:
             if per[f['signature']] == rank and len(picked) < 50:
                 if not any(f is g for g in picked):
